@@ -8,6 +8,9 @@ namespace obj {
 typedef PPL::BD_Shape<double> BDD;
 typedef PPL::Octagonal_Shape<double> OSD;
 typedef PPL::Double_Box DBox;
+template <> struct Inexact<BDD> { static constexpr bool value = true; };
+template <> struct Inexact<OSD> { static constexpr bool value = true; };
+template <> struct Inexact<DBox> { static constexpr bool value = true; };
 template <> struct Dom<BDD> { static constexpr Kind kind = SHAPE; static constexpr bool nnc = false, oct = false; static const char* name() { return "BD_Shape_double"; } };
 template <> struct Dom<OSD> { static constexpr Kind kind = SHAPE; static constexpr bool nnc = false, oct = true; static const char* name() { return "Octagonal_Shape_double"; } };
 template <> struct Dom<DBox> { static constexpr Kind kind = BOX; static constexpr bool nnc = true, oct = false; static const char* name() { return "Double_Box"; } };
